@@ -311,6 +311,7 @@ def child_entry(entry):
     import cloudpickle as cp
     import time
     t0 = time.time()
+    c0 = sum(os.times()[:4])
     rep = {"id": entry["id"], "hashseed": os.environ.get("PYTHONHASHSEED")}
     if entry.get("job_pkl") is not None:
         try:
@@ -347,6 +348,7 @@ def child_entry(entry):
         except Exception as e:  # noqa
             rep["result_err"] = f"{type(e).__name__}: {str(e)[:300]}"
     rep["seconds"] = round(time.time() - t0, 3)
+    rep["cpu"] = round(sum(os.times()[:4]) - c0, 3)
     return rep
 
 
